@@ -99,7 +99,10 @@ def main():
         meta["ran"] = ["git apply patch.diff (scratch worktree of /repo)", "go build ./... ; go test -count=1 ./...", "go test ./%s/ with demo_test.go (with and without the patch)" % pkgdir,
                        "VERIF_REPO=<worktree> ./check %s --tier %s" % (pid, tier)]
         json.dump(meta, open(os.path.join(dst, "meta.json"), "w"), indent=1)
-    print(json.dumps({k: meta[k] for k in meta if k not in ("demo_output_with",)}, indent=1)[:2500])
+    brief = {k: meta.get(k) for k in ("property", "label", "confirmed", "applies", "builds", "repo_tests_pass_with", "demo_fails_with",
+                                      "demo_passes_without", "check_exit_with", "check_detected", "check_wall_s")}
+    brief["check_output_with"] = (meta.get("check_output_with") or "")[:1200]
+    print(json.dumps(brief))
     return 0
 
 
